@@ -5,6 +5,7 @@ use crate::acc::{Acc, Run};
 use crate::gen::sentences;
 use crate::model::render;
 use jsonpath_rust::query::queryable::Queryable;
+use crate::model::parse::rfc_parse;
 use rayon::prelude::*;
 use serde_json::{json, Map, Number, Value};
 use std::panic::{catch_unwind, AssertUnwindSafe};
@@ -536,6 +537,17 @@ pub fn lockstep(acc: &mut Acc, q: &str, d: &Doc3, class: &str) {
     acc.sample(|| json!({"query": q, "doc": d.v, "result": format!("{:?}", r0)}));
 }
 
+/// integers above i64::MAX have no faithful counterpart in the alternative views (the trait offers as_i64 / as_f64
+/// only); documents and cells holding one are left to the checks over serde_json::Value
+fn has_big_u64(v: &Value) -> bool {
+    match v {
+        Value::Number(n) => n.is_u64() && !n.is_i64(),
+        Value::Array(a) => a.iter().any(has_big_u64),
+        Value::Object(m) => m.values().any(has_big_u64),
+        _ => false,
+    }
+}
+
 pub fn run(tier: &str) -> i32 {
     let run = Run::new("C15", tier);
     let th = run.thorough();
@@ -543,6 +555,7 @@ pub fn run(tier: &str) -> i32 {
     let mut panel = crate::checks::lang::eval_panel();
     panel.extend(crate::gen::docs::panel());
     panel.push(json!([1, 1.0, 1.5, -1, 0, 100, 1e2, "1", "a", true, null, [1], [1.0], {"a": 1}, {"a": 1.0}]));
+    panel.retain(|d| !has_big_u64(d));
     for d in &panel {
         if AltA::from_json(d).to_json() != *d || AltB::from_json(d).to_json() != *d || AltS::from_json(d).to_json() != *d {
             eprintln!("MACHINERY: a view does not round-trip {}", d);
@@ -582,8 +595,34 @@ pub fn run(tier: &str) -> i32 {
         }
         acc
     };
+    // 1c. every name of the odd-names universe in every spelling, in several syntactic positions: what reaches
+    // `Queryable::get` (quotes, escapes) must mean the same at every implementation
+    let a = {
+        let names = crate::gen::docs::names_universe(false);
+        let acc = names
+            .par_iter()
+            .map(|d| {
+                let mut acc = Acc::new();
+                let d3 = Doc3::new(d);
+                let base = crate::gen::alpha::alphabet(d, crate::gen::alpha::AlphaSize::Singles, 3, true).base;
+                for s in &base {
+                    if let crate::model::ast::Sel::Name { val, raw } = s {
+                        let t = if raw.starts_with('\'') || raw.starts_with('"') { raw.clone() } else { render::quote_single(val) };
+                        for c in ["$[{}]", "$..[{}]", "$[*][{}]", "$[?@[{}]]", "$[?@[{}]==1]", "$[?count(@[{}])==1]", "$[?length(@[{}])>=0]", "$[?@.*[{}]]", "$[{},{}]", "$[?$[{}]]"] {
+                            let q = c.replace("{}", &t);
+                            if rfc_parse(&q).is_ok() {
+                                lockstep(&mut acc, &q, &d3, "odd names in every spelling and position");
+                            }
+                        }
+                    }
+                }
+                acc
+            })
+            .reduce(Acc::new, Acc::merge);
+        a.merge(acc)
+    };
     // 2. comparison table
-    let uni = crate::checks::compare::universe(th);
+    let uni: Vec<Option<Value>> = crate::checks::compare::universe(th).into_iter().filter(|v| !v.as_ref().map_or(false, has_big_u64)).collect();
     let lits = crate::checks::compare::literals(th);
     let mut cells = vec![];
     for x in &uni {
